@@ -29,6 +29,10 @@ impl MarkerBuilder for UnwrapBlockMarkerBuilder {
                         el.start_token.byte_start..end,
                         Some(start + 1..el.end_token.byte_end),
                     )
+                } else if start == end {
+                    // Exactly two lines between the tags: there is no body to keep,
+                    // the two wrapper lines and both tag lines form one range.
+                    (el.start_token.byte_start..el.end_token.byte_end, None)
                 } else {
                     (el.start_token.byte_start..el.start_token.byte_start, None)
                 }
